@@ -118,6 +118,21 @@ def explicit_all(tier, seed):
     yield from unreadable_on_replay_cases(tier, seed)
     yield from merge_window_cases(tier, seed)
     yield from same_invocation_replay_cases(tier, seed)
+    # the same shapes while a page of a paginated checkpoint RESPONSE cannot be fetched: what that page carried (the completion of an
+    # operation) is not delivered again, so carrying on without it re-runs completed work when the branch passes the operation again
+    for j, c in enumerate(same_invocation_replay_cases(tier, seed)):
+        if j % 2 and tier == "quick":
+            continue
+        for nth in (1, 2, 3, 4, 5, 6):
+            yield dict(c, label=c["label"].replace("c01-same-invocation-replay", "c01-same-invocation-replay-page-fetch-fails"), prog_seed=c["prog_seed"] + 500 + nth,
+                       pages={"resp_page": 0}, max_raises=2,
+                       faults=[{"match": {"op": "get_state", "n_inv": None}, "err": {"kind": "client", "status": 500, "code": "ServiceException", "message": "boom"}, "when": "before", "nth": nth}])
+    # completed map / parallel recorded as a summary, configured with a batch-level serdes only: the replay hands back the recorded items
+    from checks.c16 import more_cases as c16_more
+
+    for c in c16_more(tier, seed):
+        if "batch-level-serdes-only" in c["label"] or "passed-again-in-the-same-invocation" in c["label"]:
+            yield dict(c, label="c01-" + c["label"])
 
 
 SPEC = Spec(
